@@ -459,6 +459,8 @@ ASSUME = ["h5py stand-in: a file is an append-only sequence of datasets; create-
 
 
 FILE_LOCKSTEP = ("C13", "C14", "C09")
+CACHE_LOCKSTEP = ("C08", "C09", "C14")
+CX_IMPORTS = ["Base.Dec", "Model.Exec", "Model.ExecShow", "Model.StepExec", "Model.FileExec", "Model.FileShow", "Model.CacheExec", "Model.CacheShow"]
 FX_IMPORTS = ["Base.Dec", "Model.Exec", "Model.ExecShow", "Model.StepExec", "Model.FileExec", "Model.FileShow"]
 
 
@@ -544,6 +546,42 @@ def cache_check(res, pid, cone, extra=None, n_file=(40, 400), n_cache=(30, 300))
         if fx_harness:
             pr["ok"] = False
             pr["broken"].append({"kind": "harness", "error": [(r.get("error") or "")[-300:] for r in fx_harness[:2]]})
+    # lockstep: the interactive-cache runs replayed on Model/CacheExec.v (every point, hits, collisions, killed workers)
+    if pid in CACHE_LOCKSTEP:
+        cx_cases = []
+        for _ in range(nc):
+            c = lockstep.gen_cblock_case(res.rng, dups=True)
+            c.pop("iofault", None)
+            c["schedule"] = lockstep.gen_schedule(res.rng, 2500)
+            c["step_limit"] = 2500
+            cx_cases.append(c)
+        cx_rs = lockstep.run_cases(cx_cases)
+        cx_runs = list(zip(cx_cases, cx_rs)) + [(c, r) for k, c, r in runs if k == "cache" and lockstep.cexec_lockstep_ok(c)]
+        cx_ok = [(c, r) for c, r in cx_runs if r.get("verdict") in ("done", "deadlock", "quiescent") and "sessions" in r]
+        cx_harness = [r for c, r in cx_runs if r.get("verdict") in ("harness-error", "harness-timeout", "harness-stall")]
+        cx_div = []
+        with core.Lock():
+            try:
+                outs = core.eval_strings(CX_IMPORTS, [lockstep.coq_expr_cc(c, r) for c, r in cx_ok], "cexec", shard=80)
+                for (c, r), o in zip(cx_ok, outs):
+                    d = lockstep.compare_lines(lockstep.impl_lines_cc(c, r), o, None)
+                    if d:
+                        cx_div.append({"case": {a: b for a, b in c.items() if a != "schedule"},
+                                       "schedule": c.get("schedule", [])[:len(r["trace"])], "divergence": d})
+            except core.CaseEvalError as ex:
+                pr["ok"] = False
+                pr["broken"].append({"kind": "case-eval", "error": str(ex)[-1000:]})
+        res.cov["cache_lockstep"] = {"traces_compared": len(cx_ok), "divergences": len(cx_div),
+                                     "multi_session": sum(1 for c, r in cx_ok if len(c.get("sessions", [])) > 1),
+                                     "with_killed_worker": sum(1 for c, r in cx_ok if crashed(c)),
+                                     "hits": sum(1 for c, r in cx_ok for t in r["trace"] if t[2][0] == "h5" and t[2][1] == "open-r"),
+                                     "steps": sum(len(r["trace"]) for c, r in cx_ok)}
+        if cx_div:
+            pr["ok"] = False
+            pr["broken"].append({"kind": "cache-lockstep", "error": cx_div[:2]})
+        if cx_harness:
+            pr["ok"] = False
+            pr["broken"].append({"kind": "harness", "error": [(r.get("error") or "")[-300:] for r in cx_harness[:2]]})
     wait_path_fail = None
     if pid == "C09":
         # the key of a dependent call is computed from what the resolver forwards: both of its paths
